@@ -400,6 +400,13 @@ def check(case):
             fails.append(('non-finite-in-report:' + sec, 'report prints NaN / INF in section %r: %r   argv: %s'
                           % (sec, [l for l in out.split('\n') if re.search(r'(?i)\b(nan|inf)\b', l)][:2], ' '.join(argv)[:300])))
         else:
+            # a field table that is announced must hold at least one row (a request for zero angles is a diagnostic)
+            blocks = out.split('PATTERN DATA')[1:]
+            for blk in blocks:
+                body = re.split(r'\*{20}', blk.split('\n', 1)[1] if '\n' in blk else '')[0]
+                if not any(re.match(r'^\s*-?[\d.]', l) for l in body.split('\n')):
+                    fails.append(('incomplete-report:empty-pattern-table', 'PATTERN DATA section without a single row   argv: %s' % ' '.join(argv)[:300]))
+                    break
             sweep = out.count('FREQUENCY (MHZ)') != 1 or (out.find('FREQUENCY (MHZ)') > out.find('ENVIRONMENT'))
             if not sweep:
                 try:
